@@ -159,6 +159,9 @@ Definition iter_json (j : json) : option (list json) :=
   | _ => None
   end.
 
+(* a lone surrogate: the name of a class must be encodable (UnicodeEncodeError is a ValueError) *)
+Definition surrogate (c : N) : bool := N.leb 55296 c && N.leb c 57343.
+
 Definition hashable (j : json) : bool := match j with JArr _ | JObj _ => false | _ => true end.
 
 Record event := {
@@ -194,7 +197,7 @@ Definition k_node_sock := [110;111;100;101;95;115;111;99;107]%N.
 Definition dispatcher_attrs : list (list N) :=
   [k_cause; k_effects; k_complete_channels; k_success_channels; k_node_call_id; k_node_sock].
 
-Inductive hres := HNone | HVal (r : json) | HRaise (late : bool).
+Inductive hres := HNone | HVal (r : json) | HValLate (r : json) | HRaise (late : bool).
 
 (* what the caller sees as the value of a failed remote event: the peer serialises the
    (type, exception, traceback) triple with default=str; the text is environment dependent and is
@@ -233,7 +236,7 @@ Section Meta.
             match iter_json a, iter_json ch, as_dict m with
             | Some args, Some chans, Some meta =>
                 if mem_str k__name (map fst kw) || mem_str k_cls (map fst kw) || mem_str k_self (map fst kw)
-                   || existsb (N.eqb 0) name
+                   || existsb (N.eqb 0) name || existsb surrogate name
                 then None
                 else if forallb hashable chans then
                   Some ({| ename := name; eargs := args; ekwargs := kw; esuccess := truthy s;
@@ -295,7 +298,8 @@ Section Meta.
   Variable D : list N.
   Variable fw_send fw_recv : event -> bool.     (* firewalls: true = allowed *)
   (* B's application on a dispatched event: HNone = no handler for the name (nothing runs, result null);
-     HVal r = the handlers run and the value is r; HRaise late = a handler raises - at once (late = false)
+     HVal r = the handlers run and the value is r (HValLate r: a generator handler yields it, the event is
+     finished in a later tick); HRaise late = a handler raises - at once (late = false)
      or in a later tick, after a yield of a generator handler (late = true) *)
   Variable handler : event -> hres.
   Variable b_chan : json.                       (* channel of B's Protocol component *)
@@ -394,8 +398,8 @@ Section Meta.
                            eattrs := eattrs e |} in
               let h := handler e' in
               let log := match h with HNone => [] | _ => [e'] end in
-              let cls := match h with HRaise true => 3 | HRaise false => 2 | _ => 1 end in
-              let r := match h with HVal r => r | HRaise _ => JERR | HNone => JNull end in
+              let cls := match h with HRaise true | HValLate _ => 3 | HRaise false => 2 | _ => 1 end in
+              let r := match h with HVal r | HValLate r => r | HRaise _ => JERR | HNone => JNull end in
               let er := match h with HRaise _ => true | _ => false end in
               if no_reply id then (log, [], false, false) else
               match packet (value_data id (JBool er) r e) with
